@@ -338,17 +338,24 @@ StateVector =
         if isinstance(new_frame, str):
             new_frame = get_frame(new_frame)
 
-        if new_frame != self.frame:
-            self.form = "cartesian"
-            try:
+        old_coord = np.array(self)
+
+        try:
+            if new_frame != self.frame:
+                self.form = "cartesian"
                 new_coord = self.frame.transform(self, new_frame)
                 self.base.setfield(new_coord, dtype=float)
                 self._data["frame"] = new_frame
-            finally:
                 self.form = old_form
 
-        if self.cov is not None and self.cov.frame == old_frame:
-            self.cov.frame = new_frame
+            if self.cov is not None and self.cov.frame == old_frame:
+                self.cov.frame = new_frame
+        except Exception:
+            # Whichever step failed, the object is left as it was
+            self.base.setfield(old_coord, dtype=float)
+            self._data["form"] = old_form
+            self._data["frame"] = old_frame
+            raise
 
     def as_frame(self, name, **kwargs):  # pragma: no cover
         """Register the orbit as frame.
